@@ -40,10 +40,10 @@ def gen_script(rng, maxf, maxops):
 
 def gen(rng, tier):
     cases = []
-    for _ in range(n_cases(tier, 500, 5000)):
+    for _ in range(n_cases(tier, 1500, 12000)):
         k = rng.choice([1, 2, 2, 3])
         cases.append({"args": [k, gen_script(rng, 4 if tier == "quick" else 5, 3 if tier == "quick" else 5)],
-                      "env": sched_env(rng, budget=150000)})
+                      "env": sched_env(rng, budget=40000)})
     return cases
 
 
